@@ -15,10 +15,12 @@
  */
 #pragma once
 
+#include <unifex/get_stop_token.hpp>
 #include <unifex/manual_lifetime.hpp>
 #include <unifex/receiver_concepts.hpp>
 #include <unifex/scheduler_concepts.hpp>
 #include <unifex/type_traits.hpp>
+#include <unifex/unstoppable_token.hpp>
 
 #include <unifex/detail/prologue.hpp>
 
@@ -67,6 +69,14 @@ private:
 
     void set_done() noexcept {
       unifex::set_done(std::move(outer_.get_receiver()));
+    }
+
+    // The decision to complete outer has already been made when the
+    // forwarding hop is started; a stop request on the final receiver must
+    // not turn the hop, and thereby outer's result, into set_done().
+    friend unstoppable_token
+    tag_invoke(tag_t<get_stop_token>, const receiver&) noexcept {
+      return {};
     }
 
     template(typename CPO)                       //
